@@ -77,7 +77,7 @@ def run(ctx):
                               "start / outputs differ from the specification's walk, or a size is wrongly rejected/accepted" % (bad["nstr"], bad["seed"], bad["rejected"]),
                               replay={"property": "C04", "trace_spec": "RangeIterTrace", "run": [table, bad]})
     pick = next((e for e in its if e.get("complete") and not e.get("rejected") and len(e.get("outs", [])) >= 3), None)
-    if pick is not None and os.environ.get("VF_SELFTEST", "0") == "1":
+    if pick is not None and os.environ.get("VF_SELFTEST", "1") == "1":
         bad = dict(pick, outs=[pick["outs"][0]] + pick["outs"][:-1])       # first value twice, last value missing
         p = os.path.join(ctx.scratch, "c04-selftest.ndjson")
         vf.write_ndjson(p, [table, bad])
